@@ -87,15 +87,15 @@ var Projections = map[string]*Projection{
 	"C08": {SkipPreamble: true, Recv: map[string]fieldSet{"*": kinds, "T": fs("n", "fmts", "oids"), "t": fs("n", "oids"), "D": fs("n", "cells")},
 		Cb: map[string]fieldSet{"*": fs("q", "def", "si", "params")}},
 	"C01": {Recv: map[string]fieldSet{"*": kinds, "R": fs("code"), "E": fs("cls")},
-		Cb: map[string]fieldSet{"*": fs("q", "def", "ret", "db", "user", "pw", "i")}},
+		Cb: map[string]fieldSet{"*": fs("q", "def", "ret", "db", "user", "pw", "i", "authv")}},
 	"C12": {Global: true, Recv: map[string]fieldSet{"*": kinds, "R": fs("code"), "S": fs("key", "val"), "Z": fs("st"), "ssl": fs("b")},
-		Cb: map[string]fieldSet{"*": fs("q", "def", "ret", "cp", "sp", "i", "db", "user", "au", "su")}},
+		Cb: map[string]fieldSet{"*": fs("q", "def", "ret", "cp", "sp", "i", "db", "user", "au", "su", "authv")}},
 	"C13": {SkipPreamble: true, Recv: map[string]fieldSet{"*": kinds, "G": fs("fmt", "n", "fmts")},
 		Cb: map[string]fieldSet{"*": fs("q", "def", "si", "ret", "dig", "rcols", "wcols")}},
 	"C17": {SkipPreamble: true, Recv: map[string]fieldSet{"*": kinds, "E": fs("wf", "dup", "sev", "code", "msg", "hint", "detail", "cons", "file", "line", "fn", "src", "hasmsg")},
 		Cb: map[string]fieldSet{"*": fs("q", "def")}},
 	"C19": {Recv: map[string]fieldSet{"*": kinds},
-		Cb: map[string]fieldSet{"*": fs("q", "def", "si", "i", "mw", "cp", "sp", "addr", "tm", "live", "prevdone", "au", "su")}},
+		Cb: map[string]fieldSet{"*": fs("q", "def", "si", "i", "mw", "cp", "sp", "addr", "tm", "live", "prevdone", "au", "su", "authv")}},
 	// the grammar of every backend message: structural facts only
 	"C02": {Recv: map[string]fieldSet{"*": fs("known", "decl", "items", "parsed", "trail", "dup", "term", "mand", "st", "b", "partial", "badframe")},
 		Cb: map[string]fieldSet{"*": fs()}},
@@ -115,7 +115,7 @@ var Projections = map[string]*Projection{
 		Cb: map[string]fieldSet{"*": fs("q", "def")}},
 	// isolation: everything a connection sees and everything its callbacks see, except row payload encodings
 	"C15": {Recv: map[string]fieldSet{"*": kinds, "S": fs("key", "val"), "T": fs("n", "names", "oids", "tables", "attrs"), "D": fs("n", "cells"), "C": fs("tag"), "R": fs("code")},
-		Cb: map[string]fieldSet{"*": fs("q", "def", "si", "params", "ret", "written", "cp", "sp", "mw", "i", "intact", "db", "user", "pw", "wcols", "au", "su")}},
+		Cb: map[string]fieldSet{"*": fs("q", "def", "si", "params", "ret", "written", "cp", "sp", "mw", "i", "intact", "db", "user", "pw", "wcols", "au", "su", "authv")}},
 	// robustness: reply kinds, which callbacks ran, allocation per hostile message
 	"C04": {Alloc: true, Recv: map[string]fieldSet{"*": kinds, "R": fs("code"), "ssl": fs("b")},
 		Cb: map[string]fieldSet{"*": fs("q", "def", "ret")}},
